@@ -285,8 +285,7 @@ Conversion<Unit::ThermalConductivity, Unit::ThermalConductivity::PoundPerSecondP
 }
 
 template <typename NumericType>
-inline const std::map<Unit::ThermalConductivity,
-                      std::function<void(NumericType* values, const std::size_t size)>>
+inline const ConversionTable<Unit::ThermalConductivity, NumericType>
     MapOfConversionsFromStandard<Unit::ThermalConductivity, NumericType>{
       {Unit::ThermalConductivity::WattPerMetrePerKelvin,
        Conversions<Unit::ThermalConductivity, Unit::ThermalConductivity::WattPerMetrePerKelvin>::
@@ -301,8 +300,7 @@ inline const std::map<Unit::ThermalConductivity,
 };
 
 template <typename NumericType>
-inline const std::map<Unit::ThermalConductivity,
-                      std::function<void(NumericType* const values, const std::size_t size)>>
+inline const ConversionTable<Unit::ThermalConductivity, NumericType>
     MapOfConversionsToStandard<Unit::ThermalConductivity, NumericType>{
       {Unit::ThermalConductivity::WattPerMetrePerKelvin,
        Conversions<Unit::ThermalConductivity, Unit::ThermalConductivity::WattPerMetrePerKelvin>::
